@@ -55,7 +55,7 @@ CONSTANTS
   Mut = "none"
   Eager = FALSE
   Diagnose = %(diag)s
-INVARIANTS EmitVerdict TraceSemOk TraceTodoScheduled
+INVARIANTS EmitFinal EmitVerdict TraceSemOk TraceTodoScheduled
 %(extra)s
 CHECK_DEADLOCK FALSE
 """
@@ -189,7 +189,7 @@ def case_summary(case):
 def key_of_failure(f):
     what, how, _subject = f
     if how == "image":
-        return "%s for image" % what if "image" not in what and "description" not in what else what
+        return what if "image" in what else "%s for image" % what
     via = {"title": "fetched by title", "revid": "fetched by revid",
            "redirect-title": "fetched via single-hop redirect by title",
            "redirect-revid": "fetched via single-hop redirect by revid"}.get(how, how)
@@ -197,11 +197,12 @@ def key_of_failure(f):
 
 
 def validate(ctx, traces, name):
-    """TLC validates the batch; returns (verdicts by trace id, rejected {id: (l, event, diag)}, states, transitions).
-    A trace is accepted iff TLC printed a verdict for it (some branch of the trace spec consumed it)."""
+    """TLC validates the batch; returns (end verdicts by trace id, rejected {id: (l, event, diag)}, Complete failures
+    by trace id, states, transitions).  A trace is accepted iff TLC printed an end verdict for it (some branch of the
+    trace spec consumed it)."""
     verdicts, rejected = {}, {}
     if not traces:
-        return verdicts, rejected, 0, 0
+        return verdicts, rejected, {}, 0, 0
     path = os.path.join(ctx.scratch, "%s.json" % name)
     with open(path, "w") as f:
         json.dump(traces, f)
@@ -209,8 +210,15 @@ def validate(ctx, traces, name):
                   env={"TRACE_FILE": path}, timeout=3000, heap="12g", deadlock=False)
     if not res.ok:
         ctx.machinery("trace validation failed with %s %s\n%s" % (res.kind, res.name, res.out[-3000:]))
+    finals = {}
     for v in res.emitted:
-        verdicts[v["id"]] = v
+        if v.get("kind") == "final":
+            finals[v["id"]] = v["failures"]
+        elif v.get("kind") == "end":
+            verdicts[v["id"]] = v
+    for t in traces:
+        if t["id"] not in finals:
+            ctx.machinery("TLC printed no Complete verdict for trace %d" % t["id"])
     expect = sum(len(t["ev"]) + 1 for t in traces if t["id"] in verdicts)
     if res.distinct < expect:
         ctx.machinery("trace validation: %d distinct states, at least %d expected" % (res.distinct, expect))
@@ -219,7 +227,7 @@ def validate(ctx, traces, name):
             rejected[t["id"]] = (0, {"t": "?"}, "not diagnosed (more than 8 rejected traces in the batch)")
             continue
         rejected[t["id"]] = diagnose(ctx, t, "%s_d%d" % (name, t["id"]))
-    return verdicts, rejected, res.distinct, res.generated
+    return verdicts, rejected, finals, res.distinct, res.generated
 
 
 def diagnose(ctx, trace, name):
@@ -245,7 +253,7 @@ def diagnose(ctx, trace, name):
     return (l, ev, "no action of the item is enabled in that state")
 
 
-def report(ctx, cases, results, verdicts, rejected):
+def report(ctx, cases, results, verdicts, rejected, finals):
     """Relay TLC's verdicts (and runs that did not end) as violations, keyed per field and access path."""
     bycase = {c["id"]: c for c in cases}
     nviol = 0
@@ -265,6 +273,11 @@ def report(ctx, cases, results, verdicts, rejected):
             ctx.violation("fetch failed: %s" % r["error"].split(":")[0], r["error"], rep)
             nviol += 1
             continue
+        for f in finals.get(r["id"], []):
+            ctx.violation(key_of_failure(f), "%s (%s) %s; book=%s limits=%s/%s images=%s schedule=%s" % (
+                f[0], f[1], f[2], [[a["title"], a["rev"]] for a in case["book"]], case["cfg"]["reqlimit"],
+                case["cfg"]["reslimit"], case["cfg"]["fetch_images"], case["cfg"]["policy"]), dict(rep, failure=f))
+            nviol += 1
         if r["id"] in rejected:
             l, ev, diag = rejected[r["id"]]
             what = "event %d of the run is not a step Fetcher.tla allows: %s — %s" % (l, json.dumps(ev)[:700], diag)
@@ -284,11 +297,6 @@ def report(ctx, cases, results, verdicts, rejected):
         if v["doublework"]:
             ctx.violation("guarded request issued twice (imageinfo / download / description page)", "NoDoubleWork", rep)
             nviol += 1
-        for f in v["failures"]:
-            ctx.violation(key_of_failure(f), "%s (%s) %s; book=%s limits=%s/%s images=%s schedule=%s" % (
-                f[0], f[1], f[2], [[a["title"], a["rev"]] for a in case["book"]], case["cfg"]["reqlimit"],
-                case["cfg"]["reslimit"], case["cfg"]["fetch_images"], case["cfg"]["policy"]), dict(rep, failure=f))
-            nviol += 1
     return nviol
 
 
@@ -296,8 +304,10 @@ def nontrivial(case, r):
     """A run counts as non-trivial when it exercised more than the plain path: a continuation, a
     redirect, a missing page, an image pipeline or semaphore blocking."""
     tr = r["trace"]
-    return any(e["to"] in ("wsem", "whsem") for e in tr["ev"]) or any(e["k"] in ("II", "NB") for e in tr["ev"]) or \
-        any(p["redirect"] for p in case["wiki"]["pages"])
+    cont = len([e for e in tr["ev"] if e["k"] == "UB" and e["to"] == "r"]) > len([e for e in tr["ev"] if e["k"] == "UB" and e["to"] == "done"])
+    listed = {a["title"] for a in case["book"]}
+    return cont or any(e["k"] in ("NB",) for e in tr["ev"]) or \
+        any(p["redirect"] and p["title"] in listed for p in case["wiki"]["pages"])
 
 
 def run(ctx):
@@ -316,16 +326,17 @@ def run(ctx):
             ctx.machinery("harness crashed on case %d: %s" % (r["id"], r["crash"]))
     traces = [r["trace"] for r in results if not r["hang"]]
     t2 = time.time()
-    verdicts, rejected, tr_states, tr_trans = {}, {}, 0, 0
+    verdicts, rejected, finals, tr_states, tr_trans = {}, {}, {}, 0, 0
     batch = 400
     for b in range(0, len(traces), batch):
-        v, rj, s, t = validate(ctx, traces[b:b + batch], "tr%d" % (b // batch))
+        v, rj, fi, s, t = validate(ctx, traces[b:b + batch], "tr%d" % (b // batch))
         verdicts.update(v)
         rejected.update(rj)
+        finals.update(fi)
         tr_states += s
         tr_trans += t
     t_val = time.time() - t2
-    report(ctx, cases, results, verdicts, rejected)
+    report(ctx, cases, results, verdicts, rejected, finals)
     consumed = len(verdicts)
     bycase = {c["id"]: c for c in cases}
     nt = sum(1 for r in results if not r["hang"] and nontrivial(bycase[r["id"]], r))
@@ -341,13 +352,13 @@ def run(ctx):
                        "images on/off x html on/off), all interleavings of response arrivals (Eager) plus unrestricted "
                        "interleavings on the small plan; P-TRACE: seeded generator (small: <=3 articles, <=2 templates, <=2 "
                        "images, <=1 redirect structure, limits 1..2; big: <=8 pages, <=6 images, limits 1..50), one real "
-                       "make_nuwiki per case under a seeded deterministic response schedule; non-trivial = semaphore "
-                       "blocking, image pipeline or a redirect page occurred")
+                       "make_nuwiki per case under a seeded deterministic response schedule; non-trivial = a continued "
+                       "prop=images query, the description-page pipeline, or a listed redirect page occurred")
     for r in results[:2] + results[nsmall:nsmall + 1]:
         v = verdicts.get(r["id"])
         ctx.sample({"case": case_summary(bycase[r["id"]]), "events": r["nev"], "requests": r["nreq"],
                     "first_events": [[e["k"], e["a"], e["to"], e["w"]] for e in r["trace"]["ev"][:12]],
-                    "verdict": v})
+                    "complete_failures": finals.get(r["id"]), "end_verdict": v})
     ctx.assume("the synthetic wiki (harness/synthwiki.py, contract spec/WikiApi.tla) answers like MediaWiki for the request "
                "alphabet sapi.py uses; it speaks legacy query-continue, the only dialect the client continues on",
                "image usage is a page-level attribute (MediaWiki's imagelinks table): a pinned old revision uses the images of its page",
@@ -363,7 +374,7 @@ def replay(ctx, path):
     case = rec["replay"]["case"]
     results = execute(ctx, [case])
     traces = [r["trace"] for r in results if "trace" in r and not r.get("hang")]
-    verdicts, rejected, _, _ = validate(ctx, traces, "replay") if traces else ({}, {}, 0, 0)
-    n = report(ctx, [case], results, verdicts, rejected)
+    verdicts, rejected, finals, _, _ = validate(ctx, traces, "replay")
+    n = report(ctx, [case], results, verdicts, rejected, finals)
     if not n:
         print("replay: the case now conforms to the specification")
